@@ -236,6 +236,11 @@ func scopeMatch(strategy string, required, granted []string) int {
 			switch {
 			case g == r && (strategy == "exact" || !strings.Contains(g, "*")):
 				one = yes
+			case strategy == "hierarchic" && g != "" && (strings.HasPrefix(r, g+".") || strings.HasPrefix(g, r+".")):
+				// parent/child at a '.' boundary: code and documentation disagree on the direction, not judged
+				if one == no {
+					one = unsettled
+				}
 			case strategy == "wildcard" && strings.HasPrefix(r, g+"."):
 				// "goes beyond the hierarchic matcher": whether a parent scope matches is not documented
 				if one == no {
